@@ -283,6 +283,13 @@ def run(ctx):
         if rb:
             k = [i for i, e in enumerate(rb[0]) if e["ev"] == "rb.send"][0]
             samples.append({"rollback_path": rb[0][max(0, k - 4):k + 6]})
+    # ------------------------------------------------------------------ sustained contention (progress only)
+    # "leaf sections" is an assumption of NodeLocks.tla about the callers' lock use; a leaf section that takes the same
+    # read lock twice, or another lock, only blocks under sustained contention: every kind of caller is kept busy
+    hs = ctx.harness([b, "stress", "6" if quick else "20", "2" if quick else "4"], timeout=1500)
+    stress = hs["summary"]
+    if stress.get("stress_calls", 0) < 10000 and not hs["violations"]:
+        raise Infra("the contention rounds completed only %s calls" % stress.get("stress_calls"))
     ctx.finish("model_checking", dict(
         states=sum(r.distinct for r in designs) + rdev.distinct + rrace.distinct + tstates,
         transitions=sum(r.generated for r in designs) + rdev.generated + rrace.generated,
@@ -297,7 +304,7 @@ def run(ctx):
         calls=dict(block=tot.get("calls_block", 0), vote=tot.get("calls_vote", 0), tx=tot.get("calls_tx", 0), read=tot.get("calls_read", 0)),
         rollback_requests=tot.get("rollback_requests", 0), cached_verification_sections=tot.get("cached_sections", 0),
         race_reports=tot.get("race_reports", 0), blocked_workloads=tot.get("blocked_workloads", 0),
-        caller_panics=tot.get("caller_panics", 0),
+        caller_panics=tot.get("caller_panics", 0), sustained_contention=stress,
         traces_rejected=rejected, trace_validation_states=tstates, negative_controls=controls,
         exhaustive=True,
         rule="design: TLC exhaustive (deadlock + liveness under WF) on the bounded instances; R: TLC deadlock counterexamples of the "
